@@ -577,3 +577,111 @@ def soc_specs(prop='C14'):
     return [Fragment('astutil:syntax_ordered_children', prop, 'soc', cases, run,
                      notes=f'{len(entries)} lambda entries of _SYNTAX_ORDERED_CHILDREN executed symbolically; function '
                            f'entries with loops ({skipped}) are bounded only')]
+
+
+# ---------------------------------------------------------------------------------------------------------------------
+# C14: the `all` filter - two copies of one rule (fst_traverse._check_all_param used by next/prev/step/child stepping,
+# fst_traverse._all_param_func used by walk) must agree with each other and with the documented rule, on the whole
+# finite domain: every concrete AST class x emptiness of the five argument lists x every kind of `all` value.
+
+def finite_all_param(payload):
+    """native, exhaustive: evaluates the two real functions at every point of the domain"""
+    import ast as _ast
+    import itertools
+    import types
+    from fst import fst_traverse
+    chk, mk = fst_traverse._check_all_param, fst_traverse._all_param_func
+
+    def leaves(c):
+        subs = c.__subclasses__()
+        return [c] if not subs else [x for s in subs for x in leaves(s)]
+    classes = sorted({c for c in leaves(_ast.AST) if c.__module__ == 'ast' and not c.__name__.startswith('_')
+                      and c.__name__ not in ('Index', 'ExtSlice', 'Suite', 'AugLoad', 'AugStore', 'Param', 'Num', 'Str',
+                                             'Bytes', 'NameConstant', 'Ellipsis', 'slice')}, key=lambda c: c.__name__)
+    ctx = set(leaves(_ast.expr_context))
+    boolops = set(leaves(_ast.boolop))
+    ops = set(leaves(_ast.operator)) | set(leaves(_ast.unaryop)) | set(leaves(_ast.cmpop))
+    arg_fields = ('posonlyargs', 'args', 'vararg', 'kwonlyargs', 'kwarg')
+
+    def nodes(cls):
+        if cls is _ast.arguments:
+            for bits in itertools.product((False, True), repeat=5):
+                a = _ast.arguments(posonlyargs=[], args=[], vararg=None, kwonlyargs=[], kw_defaults=[], kwarg=None,
+                                   defaults=[])
+                for f, b in zip(arg_fields, bits):
+                    if b:
+                        setattr(a, f, _ast.arg(arg='x') if f in ('vararg', 'kwarg') else [_ast.arg(arg='x')])
+                yield a, 'arguments(' + ','.join(f for f, b in zip(arg_fields, bits) if b) + ')', any(bits)
+        else:
+            yield cls(), cls.__name__, None
+    containers = [frozenset([_ast.Name, _ast.arguments, _ast.Load]), {_ast.Add: 1, _ast.Call: 2}, [_ast.arg, _ast.And], ()]
+    alls = [('True', True), ('False', False), ("'loc'", 'loc')] + [(f'type:{c.__name__}', c) for c in classes] + \
+           [(f'container{i}', c) for i, c in enumerate(containers)]
+    out = {'points': 0, 'failures': [], 'groups': {}}
+
+    def rec(group, ok, what):
+        g = out['groups'].setdefault(group, [0, 0])
+        g[0] += 1
+        if not ok:
+            g[1] += 1
+            if len(out['failures']) < 40:
+                out['failures'].append({'key': group, 'what': what, 'replayed': True})
+    for cls in classes:
+        for node, desc, nonempty in nodes(cls):
+            f = types.SimpleNamespace(a=node)
+            for aname, all_ in alls:
+                out['points'] += 1
+                kind = aname.split(':')[0].rstrip('0123456789')
+                try:
+                    got_c = chk(f, all_)
+                    got_w = mk(all_)(f)
+                except Exception as e:
+                    rec(f'C14.all_param.total[all={kind}]', False, f'all={aname} on {desc}: raised {e!r}')
+                    continue
+                rec(f'C14.all_param.total[all={kind}]', isinstance(got_c, bool), f'all={aname} on {desc}: returned {got_c!r}')
+                rec(f'C14.all_param.copies_agree[all={kind}]', bool(got_c) == bool(got_w),
+                    f'all={aname} on {desc}: _check_all_param (next/prev/step/child stepping) says {got_c!r} but '
+                    f'_all_param_func (walk) says {got_w!r}')
+                if all_ is True:
+                    want = True
+                elif all_ is False:
+                    want = (cls not in ctx and cls not in boolops and cls not in ops and
+                            (cls is not _ast.arguments or nonempty))
+                elif all_ == 'loc':
+                    want = cls not in ctx and cls not in boolops
+                elif isinstance(all_, type):
+                    want = cls is all_
+                else:
+                    want = cls in all_
+                rec(f'C14.all_param.rule[all={kind}]', bool(got_w) == want and bool(got_c) == want,
+                    f'all={aname} on {desc}: documented rule gives {want}, walk filter {got_w!r}, stepping filter {got_c!r}')
+    out['classes'] = len(classes)
+    return out
+
+
+def all_param_finite(rep, prop='C14'):
+    from pyvc import native, frontend
+
+    class _S:
+        name = 'finite-domain evaluation of the node filter'
+        notes = 'total, loop-free functions over (AST class, emptiness of argument lists, kind of `all`): every point evaluated'
+    for ident in ('fst_traverse:_check_all_param', 'fst_traverse:_all_param_func'):
+        rep.function(frontend.locate(ident), _S)
+    r = native.run('k_traverse', 'finite_all_param', {})
+    fails = {}
+    for f in r['failures']:
+        fails.setdefault(f['key'], f)
+    for group, (n, bad) in sorted(r['groups'].items()):
+        f = fails.get(group)
+        rep.other('finite', group, bad == 0, detail=(f['what'] if f else f'{n} points'), key=group,
+                  replay=dict(f or {}, native_entry=('k_traverse', 'replay_all_param')))
+    if r['points'] < 10000 or r['classes'] < 100:
+        rep.checker_error(f'all-param domain shrank: {r["points"]} points over {r["classes"]} classes')
+    rep.extra['all_param_domain'] = {'points': r['points'], 'classes': r['classes']}
+
+
+def replay_all_param(payload):
+    r = finite_all_param({})
+    key = (payload.get('replay') or payload).get('key')
+    hit = [f for f in r['failures'] if f['key'] == key]
+    return {'reproduced': bool(hit), 'failure': hit[:1]}
